@@ -170,6 +170,42 @@ func lookupAll(f *fox.Router, cur *served, method, host, path string) (res strin
 			diffs = append(diffs, fmt.Sprintf("ServeHTTP(tsr)=%s,%s", hx(cur.pattern), showParams(cur.params)))
 		}
 	}
+	// inside a write transaction with uncommitted changes every entry point must read the transaction's own state:
+	// register a probe route, delete nothing, compare, abort
+	_ = f.Updates(func(wt *fox.Txn) error {
+		probePat := "/zzprobe-" + method + "/{q}/leaf"
+		if _, err := wt.Handle(method, probePat, func(c fox.Context) {}); err == nil {
+			pp := "/zzprobe-" + method + "/1/leaf"
+			ra, cca, ta := wt.Lookup(foxWriter{newRecWriter()}, newReq(method, host, pp))
+			var psa []fox.Param
+			if cca != nil {
+				psa = slices.Collect(cca.Params())
+				cca.Close()
+			}
+			rb, tb := wt.Reverse(method, host, pp)
+			var rc *fox.Route
+			for _, r := range wt.Iter().Reverse(slices.Values([]string{method}), host, pp) {
+				rc = r
+			}
+			rd := wt.Route(method, probePat)
+			sn := wt.Snapshot()
+			re, te := sn.Reverse(method, host, pp)
+			if ra != rb || ta != tb || (rc != ra && !ta) || re != ra || te != ta || (rd == nil) != (ra == nil && false) && rd == nil {
+				diffs = append(diffs, fmt.Sprintf("write-txn(uncommitted %s): Lookup=%s Reverse=%s Iter.Reverse=%s Route=%v Snapshot.Reverse=%s",
+					hx(probePat), showLookup(ra, psa, ta), showLookup(rb, nil, tb), showLookup(rc, nil, false), rd != nil, showLookup(re, nil, te)))
+			}
+		}
+		// the original request through the write transaction
+		r1, cc1, t1 := wt.Lookup(foxWriter{newRecWriter()}, newReq(method, host, path))
+		if cc1 != nil {
+			cc1.Close()
+		}
+		r2, t2 := wt.Reverse(method, host, path)
+		if r1 != r2 || t1 != t2 {
+			diffs = append(diffs, "write-txn: Lookup="+showLookup(r1, nil, t1)+" Reverse="+showLookup(r2, nil, t2))
+		}
+		return errors.New("abort")
+	})
 	if len(diffs) > 0 {
 		oracle = "entry points disagree on " + method + " host=" + hx(host) + " path=" + hx(path) + ": Lookup=" + res + " " + strings.Join(diffs, " ")
 	}
@@ -338,6 +374,90 @@ func genPattern(r *Rng, hostPct int) string {
 		return Pick(r, hostPats) + p
 	}
 	return p
+}
+
+// genNestedPool builds a pattern pool in which about half of the entries extend or truncate another entry at a
+// segment boundary, so that histories update a route and then write below it, delete parents of live children, etc.
+func genNestedPool(r *Rng, n int, hostPct int) []string {
+	pool := make([]string, 0, n)
+	for len(pool) < n {
+		if len(pool) > 0 && r.Chance(50) {
+			base := Pick(r, pool)
+			switch r.Intn(3) {
+			case 0:
+				ext := strings.TrimSuffix(base, "/")
+				if strings.HasSuffix(ext, "}") && strings.Contains(ext[strings.LastIndexByte(ext, '/'):], "*{") && r.Bool() {
+					ext += "/" + Pick(r, staticSegs)
+				} else {
+					ext += "/" + Pick(r, append(append([]string{}, staticSegs...), paramSegs...))
+				}
+				pool = append(pool, ext)
+			case 1:
+				h, pth := splitHostPath(base)
+				segs := strings.Split(strings.Trim(pth, "/"), "/")
+				if len(segs) > 1 {
+					pool = append(pool, h+"/"+strings.Join(segs[:len(segs)-1], "/"))
+				} else {
+					pool = append(pool, genPattern(r, hostPct))
+				}
+			default:
+				if strings.HasSuffix(base, "/") && len(base) > 1 {
+					pool = append(pool, base[:len(base)-1])
+				} else {
+					pool = append(pool, base+"/")
+				}
+			}
+			continue
+		}
+		pool = append(pool, genPattern(r, hostPct))
+	}
+	return pool
+}
+
+// genBacktrackFamily: patterns of equal depth whose segments are, level by level, either a level-specific static word
+// or a level-specific parameter: every subset shares prefixes and forces nested backtracking below captured parameters.
+func genBacktrackFamily(r *Rng) (pats []string, probes []string) {
+	depth := 3 + r.Intn(3)
+	words := []string{"x", "y", "z", "w", "q"}
+	n := 3 + r.Intn(6)
+	seen := map[string]bool{}
+	for len(pats) < n {
+		var sb strings.Builder
+		for l := 0; l < depth; l++ {
+			sb.WriteByte('/')
+			switch r.Intn(5) {
+			case 0, 1:
+				sb.WriteString(words[l])
+			case 2, 3:
+				sb.WriteString("{p" + strconv.Itoa(l) + "}")
+			default:
+				sb.WriteString(words[(l+1)%len(words)])
+			}
+		}
+		p := sb.String()
+		if r.Chance(15) {
+			p += "/"
+		}
+		if !seen[p] {
+			seen[p] = true
+			pats = append(pats, p)
+		}
+		if len(seen) > 40 {
+			break
+		}
+	}
+	for i := 0; i < 10+r.Intn(10); i++ {
+		var sb strings.Builder
+		for l := 0; l < depth; l++ {
+			sb.WriteByte('/')
+			sb.WriteString(Pick(r, []string{words[l], words[l], words[(l+1)%len(words)], "v", "v" + strconv.Itoa(l)}))
+		}
+		if r.Chance(15) {
+			sb.WriteByte('/')
+		}
+		probes = append(probes, sb.String())
+	}
+	return
 }
 
 // instantiate substitutes values for the wildcards of a pattern (host or path part).
@@ -552,7 +672,7 @@ func genOps(r *Rng, tier string, n int, emit func(string)) {
 			hostPct = Pick(cr, []int{60, 80, 100})
 		}
 		dump := tier == "thorough" && cr.Chance(30)
-		kind := cr.Intn(10)
+		kind := cr.Intn(11)
 		addH := func(m, p string) {
 			hid++
 			ops = append(ops, fmt.Sprintf("H,%s,%s,%d,%d", m, hx(p), Pick(cr, []int{0, 0, 0, 1, 2}), hid))
@@ -561,7 +681,17 @@ func genOps(r *Rng, tier string, n int, emit func(string)) {
 				ops = append(ops, "X")
 			}
 		}
+		var famProbes []string
 		switch {
+		case kind == 10:
+			// nested backtracking family
+			fp, probes := genBacktrackFamily(cr)
+			for _, p := range fp {
+				addH(methods[0], p)
+			}
+			for _, pr := range probes {
+				famProbes = append(famProbes, "L,"+methods[0]+",_,"+hx(pr))
+			}
 		case kind < 5:
 			// route set, then probes
 			k := 1 + cr.Intn(12)
@@ -570,10 +700,7 @@ func genOps(r *Rng, tier string, n int, emit func(string)) {
 			}
 		case kind < 9:
 			// mutation history with interleaved readers
-			pool := make([]string, 4+cr.Intn(16))
-			for i := range pool {
-				pool[i] = genPattern(cr, hostPct)
-			}
+			pool := genNestedPool(cr, 4+cr.Intn(16), hostPct)
 			k := 5 + cr.Intn(40)
 			for i := 0; i < k; i++ {
 				m := Pick(cr, methods)
@@ -617,6 +744,7 @@ func genOps(r *Rng, tier string, n int, emit func(string)) {
 			}
 		}
 		ops = append(ops, "N", "A", "M")
+		ops = append(ops, famProbes...)
 		np := 6 + cr.Intn(10)
 		for i := 0; i < np; i++ {
 			ops = append(ops, genProbe(cr, pats, methods))
